@@ -15,7 +15,7 @@ import (
 	"time"
 
 	"verifsim/core"
-	_ "verifsim/hook"
+	"verifsim/hook"
 	"verifsim/kernel"
 	_ "verifsim/props/all"
 	"verifsim/props/common"
@@ -176,6 +176,7 @@ func runOne(t *testing.T, p *core.Prop, sc any, verbose bool, races *raceLog) *c
 	progress.Add(1)
 	defer func() { progress.Add(1); inRun.Store(false) }()
 	before := kernel.RaceErrors()
+	hook.ResetRun()
 	res := p.Run(t, sc, verbose)
 	if kernel.RaceErrors() != before {
 		lib, noise := races.collect()
